@@ -21,6 +21,7 @@ def jobs(pid, tier, seed):
     out += [{"kind": "dirdup2", "i": i} for i in range(8)]
     out += [{"kind": "dirdup3", "i": i} for i in range(4)]
     out += [{"kind": "dirdup4", "i": i} for i in range(4)]
+    out += [{"kind": "dirdup5", "i": i} for i in range(4)]
     n = 700 if tier == "quick" else 15000
     out += [{"kind": "dup", "seed": seed * 1000003 + i, "max": 4 if tier == "quick" else 12} for i in range(n)]
     out += [{"kind": "dup", "seed": seed * 1000003 + 5000000 + i, "max": 6 if tier == "quick" else 14, "life": 1} for i in range(n)]
@@ -338,8 +339,55 @@ def dir_hist4(i):
     return b.h
 
 
+def dir_hist5(i):
+    """One side is busy in many channels at once: it allocates on several connections, claims a few explicit names,
+    claims and releases / opens and closes some of them, then goes on allocating and claiming; a second side joins some
+    and lists.  A re-sent claim, release, open or close anywhere in this must not change how many channels the side may
+    have, which names the later allocates get, or what the other side is shown."""
+    from ..scenarios import HB, claimed, alloc
+    b = HB()
+    conns = []
+    for k in range(4):
+        c = b.conn("app", "s1")
+        b.send(c, type="allocate")
+        conns.append(c)
+    for k, nm in enumerate(["21", "22", "23", "24", "25", "26", "27"][:3 + 4 * (i & 1)]):
+        c = b.conn("app", "s1")
+        b.send(c, type="claim", nameplate=nm)
+        conns.append(c)
+    b.send(conns[0], type="claim", nameplate=alloc(conns[0]))
+    b.send(conns[0], type="release")
+    b.send(conns[1], type="claim", nameplate=alloc(conns[1]))
+    b.send(conns[1], type="open", mailbox=claimed(conns[1]))
+    b.send(conns[1], type="close", mood="happy")
+    b.send(conns[4], type="release")
+    L = b.conn("app", "s2")
+    b.send(L, type="list")
+    if i & 2:
+        b.adv(30)
+    for k in range(5):
+        c = b.conn("app", "s1")
+        b.send(c, type="allocate")
+        b.send(c, type="claim", nameplate=alloc(c))
+        if k % 2:
+            b.send(c, type="release")
+    for nm in ("28", "29", "21"):
+        c = b.conn("app", "s1")
+        b.send(c, type="claim", nameplate=nm)
+    b.send(L, type="list")
+    P = b.conn("app", "s2")
+    b.send(P, type="claim", nameplate="22")
+    b.send(P, type="open", mailbox=claimed(P))
+    b.send(L, type="list")
+    return b.h
+
+
 def run_job(pid, job, acc):
     import random
+    if job["kind"] == "dirdup5":
+        h = dir_hist5(job["i"])
+        check_history(acc, h, Config(usage=bool(job["i"] & 2)), job["i"], "dirdup5:%d" % job["i"], 60, random.Random(0), both=True)
+        return
     if job["kind"] == "dirdup4":
         h = dir_hist4(job["i"])
         check_history(acc, h, Config(usage=bool(job["i"] & 2)), job["i"], "dirdup4:%d" % job["i"], 50, random.Random(0), both=True)
